@@ -772,6 +772,12 @@ def _new_constants_of(m) -> Dict[str, ast.AST]:
             return None if l_ is None or r_ is None else ast.BinOp(left=l_, op=v.op, right=r_)
         if isinstance(v, ast.Name) and v.id in binds and len(binds[v.id]) == 1 and v.id not in seen and v.id not in glob:
             return resolve(binds[v.id][0], seen + (v.id,))
+        if isinstance(v, ast.Lambda) and not v.args.defaults and not v.args.kw_defaults and not v.args.vararg and not v.args.kwarg:
+            # a lambda over its own parameters and imported / builtin names (a table of predicates)
+            own = {a.arg for a in v.args.args}
+            free = {x.id for x in ast.walk(v.body) if isinstance(x, ast.Name) and isinstance(x.ctx, ast.Load)} - own
+            if not (free & set(binds)) and not any(isinstance(x, (ast.Lambda, ast.NamedExpr, ast.Yield, ast.Await)) for x in ast.walk(v.body)):
+                return _clone(v)
         return None
     out = {}
     for name, vs in binds.items():
@@ -1736,6 +1742,20 @@ def more_spellings(tree: ast.AST):
             return new
         if isinstance(c.func, ast.Name) and c.func.id == "list" and len(c.args) == 1 and not c.keywords and isinstance(c.args[0], ast.Call) and isinstance(c.args[0].func, ast.Name) and c.args[0].func.id == "sorted":
             return c.args[0]
+        # (lambda a, b: E)(x, y) is E[a := x, b := y] for plain arguments (or parameters read once)
+        if isinstance(c.func, ast.Lambda) and not c.keywords and not any(isinstance(a_, ast.Starred) for a_ in c.args) and len(c.args) == len(c.func.args.args) \
+                and not c.func.args.vararg and not c.func.args.kwarg and not c.func.args.kwonlyargs and not c.func.args.defaults:
+            uses = {}
+            for x in ast.walk(c.func.body):
+                if isinstance(x, ast.Name) and isinstance(x.ctx, ast.Load):
+                    uses[x.id] = uses.get(x.id, 0) + 1
+            pairs = list(zip([a_.arg for a_ in c.func.args.args], c.args))
+            if all(isinstance(a_, (ast.Name, ast.Constant)) or (isinstance(a_, ast.Attribute) and _pure_path(a_)) or uses.get(p_, 0) <= 1 for p_, a_ in pairs) \
+                    and not any(isinstance(x, (ast.Lambda, ast.ListComp, ast.SetComp, ast.DictComp, ast.GeneratorExp)) for x in ast.walk(c.func.body)):
+                try:
+                    return _Renamer({p_: _clone(a_) for p_, a_ in pairs}).visit(_clone(c.func.body))
+                except _Unsupported:
+                    pass
         # filter / map / starmap with a lambda or a plain callable are generator expressions
         fname = c.func.id if isinstance(c.func, ast.Name) else (c.func.attr if isinstance(c.func, ast.Attribute) and isinstance(c.func.value, ast.Name) and c.func.value.id == "itertools" else None)
         if fname in ("filter", "map") and len(c.args) == 2 and not c.keywords:
@@ -1911,7 +1931,7 @@ def unroll_literal_loops(tree: ast.AST):
                         def _n_loads(nm):
                             return sum(1 for b in st.body for x in ast.walk(b) if isinstance(x, ast.Name) and x.id == nm and isinstance(x.ctx, ast.Load))
                         # plain values are substituted freely; a call (e.g. a constructor) only where the variable is read once
-                        if not all(isinstance(v_, (ast.Name, ast.Constant, ast.Attribute)) or (isinstance(v_, ast.Call) and _n_loads(k_) <= 1) or (isinstance(v_, ast.UnaryOp) and isinstance(v_.operand, ast.Constant))
+                        if not all(isinstance(v_, (ast.Name, ast.Constant, ast.Attribute)) or (isinstance(v_, (ast.Call, ast.Lambda)) and _n_loads(k_) <= 1) or (isinstance(v_, ast.UnaryOp) and isinstance(v_.operand, ast.Constant))
                                    for k_, v_ in mapping.items()):
                             ok = False
                             break
